@@ -939,6 +939,17 @@ func isMinFunc(fn *ssa.Function) bool {
 	x, y := fn.Params[0], fn.Params[1]
 	got := map[*ssa.Parameter]bool{}
 	for _, r := range ir.Returns(fn) {
+		// `return min(x, y)`: the Go 1.21 builtin applied to the two parameters
+		if bc, ok := r.Results[0].(*ssa.Call); ok {
+			if b, ok := bc.Call.Value.(*ssa.Builtin); ok && b.Name() == "min" && len(bc.Call.Args) == 2 {
+				a0, a1 := bc.Call.Args[0], bc.Call.Args[1]
+				if (a0 == ssa.Value(x) && a1 == ssa.Value(y)) || (a0 == ssa.Value(y) && a1 == ssa.Value(x)) {
+					got[x], got[y] = true, true
+					continue
+				}
+			}
+			return false
+		}
 		p, ok := r.Results[0].(*ssa.Parameter)
 		if !ok {
 			return false
@@ -1060,7 +1071,11 @@ func minLayerHeight(c *Ctx, v ssa.Value, depth int) int {
 		return 0
 	}
 	sc := ir.Callee(call.Call)
-	if isMinFunc(sc) {
+	isBuiltinMin := false
+	if b, ok := call.Call.Value.(*ssa.Builtin); ok && b.Name() == "min" && len(call.Call.Args) == 2 {
+		isBuiltinMin = true
+	}
+	if isBuiltinMin || isMinFunc(sc) {
 		var layerOK, heightOK bool
 		for _, a := range call.Call.Args {
 			if mastFieldLoad(a, "height") {
@@ -1422,6 +1437,9 @@ func nonNilBackedE(v ssa.Value, ownBase ssa.Value, ownField string, d int, env *
 		if b, ok := x.Call.Value.(*ssa.Builtin); ok && b.Name() == "append" {
 			return nonNilBackedE(x.Call.Args[0], ownBase, ownField, d+1, env)
 		}
+		if n, ok := stdSliceOp(x); ok && n != "slices.Clip" {
+			return nonNilBackedE(x.Call.Args[0], ownBase, ownField, d+1, env)
+		}
 		if rets, ne, callee := helperReturns(x, env); rets != nil && d < 6 {
 			for _, rv := range rets {
 				if ok, why := nonNilBackedE(rv, ownBase, ownField, d+2, ne); !ok {
@@ -1544,6 +1562,21 @@ func runMAKECAP(c *Ctx) {
 						}
 					}
 				}
+				// capacity written as max(len, …): at least the length by construction
+				if mc, ok := stripConv(mk.Cap).(*ssa.Call); ok {
+					if bi, ok := mc.Call.Value.(*ssa.Builtin); ok && bi.Name() == "max" {
+						hasLen := false
+						for _, a := range mc.Call.Args {
+							if a == mk.Len || ir.Sym(stripConv(a)) == ir.Sym(stripConv(mk.Len)) {
+								hasLen = true
+							}
+						}
+						if hasLen {
+							c.OK(pos, what, "capacity is max(len, …)", false)
+							continue
+						}
+					}
+				}
 				// a dominating comparison between the two
 				proved := false
 				ls, cs := ir.Sym(stripConv(mk.Len)), ir.Sym(stripConv(mk.Cap))
@@ -1626,6 +1659,16 @@ func runPOWLOOP(c *Ctx) {
 			acc, ok := stripConv(val).(*ssa.Phi)
 			if !ok {
 				c.Undecided(fn, pos, "shrinkBelowSize not a loop accumulator", "cannot recognise how BranchFactor^Height is computed")
+				continue
+			}
+			// `for range n` (Go 1.22) is built bottom-tested: pre: if 0 < n goto body else done; body: acc, i = φ…;
+			// acc' = acc·bf; i' = i+1; if i' < n goto body else done; done: φ(1 from pre, acc' from body)
+			if okRot, whyRot, isRot := powRotated(acc, isRootField); isRot {
+				if okRot {
+					c.OK(pos, "shrinkBelowSize in LoadMast", "accumulator of a range-over-int loop: starts at 1, multiplied by Root.BranchFactor once per iteration, exactly Root.Height iterations", false)
+				} else {
+					c.Violation(fn, pos, "shrinkBelowSize is not BranchFactor^Height", whyRot+": a reloaded tree gets the thresholds of a different height and grows/shrinks at the wrong sizes (e.g. deleting it empty fails in shrink)")
+				}
 				continue
 			}
 			h := acc.Block()
@@ -1849,4 +1892,91 @@ func runGROWCHECK(c *Ctx) {
 	if n == 0 {
 		c.Undecided(ins, P.Pos(ins.Pos()), "no growth test found", "Insert has no looped (bool, error) test on a node")
 	}
+}
+
+// powRotated recognises the bottom-tested loop go/ssa builds for `for range n` around an accumulator:
+// exit = φ(1 [from the pre-test], mul [from the body]); body: a = φ(1, mul), i = φ(0, i+1); mul = a·BranchFactor;
+// body ends in `i+1 < n`, the pre-test is `0 < n`, n = Root.Height.
+func powRotated(exit *ssa.Phi, isRootField func(ssa.Value, string) bool) (ok bool, why string, isRot bool) {
+	if len(exit.Edges) != 2 {
+		return false, "", false
+	}
+	xb := exit.Block()
+	var body, pre *ssa.BasicBlock
+	var mul *ssa.BinOp
+	var init ssa.Value
+	for i, e := range exit.Edges {
+		p := xb.Preds[i]
+		if m, isM := stripConv(e).(*ssa.BinOp); isM && m.Op == token.MUL && m.Block() == p {
+			// the body loops on itself
+			self := false
+			for _, s := range p.Succs {
+				if s == p {
+					self = true
+				}
+			}
+			if self {
+				body, mul = p, m
+				continue
+			}
+		}
+		pre, init = p, e
+	}
+	if body == nil || pre == nil || mul == nil {
+		return false, "", false
+	}
+	isRot = true
+	if k, isK := ir.ConstInt(stripConv(init)); !isK || k != 1 {
+		return false, "the result for zero iterations is not 1", true
+	}
+	var a *ssa.Phi
+	if p, isP := stripConv(mul.X).(*ssa.Phi); isP && p.Block() == body && isRootField(mul.Y, "BranchFactor") {
+		a = p
+	} else if p, isP := stripConv(mul.Y).(*ssa.Phi); isP && p.Block() == body && isRootField(mul.X, "BranchFactor") {
+		a = p
+	}
+	if a == nil {
+		return false, "the accumulator is not multiplied by Root.BranchFactor once per iteration", true
+	}
+	for i, e := range a.Edges {
+		if body.Preds[i] == body {
+			if stripConv(e) != ssa.Value(mul) {
+				return false, "the accumulator is not carried round the loop", true
+			}
+		} else if k, isK := ir.ConstInt(stripConv(e)); !isK || k != 1 {
+			return false, "the accumulator does not start at 1", true
+		}
+	}
+	// trip count
+	biff, _ := body.Instrs[len(body.Instrs)-1].(*ssa.If)
+	piff, _ := pre.Instrs[len(pre.Instrs)-1].(*ssa.If)
+	if biff == nil || piff == nil || body.Succs[0] != body || pre.Succs[0] != body {
+		return false, "the loop does not have the shape of a counted range", true
+	}
+	bc, _ := biff.Cond.(*ssa.BinOp)
+	pc, _ := piff.Cond.(*ssa.BinOp)
+	if bc == nil || pc == nil || bc.Op != token.LSS || pc.Op != token.LSS || !isRootField(bc.Y, "Height") || !isRootField(pc.Y, "Height") {
+		return false, "the loop is not bounded by Root.Height", true
+	}
+	if k, isK := ir.ConstInt(stripConv(pc.X)); !isK || k != 0 {
+		return false, "the pre-test is not 0 < Root.Height", true
+	}
+	inc, _ := stripConv(bc.X).(*ssa.BinOp)
+	if inc == nil || inc.Op != token.ADD {
+		return false, "the counter is not stepped by one", true
+	}
+	ctr, _ := stripConv(inc.X).(*ssa.Phi)
+	if k, isK := ir.ConstInt(inc.Y); ctr == nil || ctr.Block() != body || !isK || k != 1 {
+		return false, "the counter is not stepped by one", true
+	}
+	for i, e := range ctr.Edges {
+		if body.Preds[i] == body {
+			if stripConv(e) != ssa.Value(inc) {
+				return false, "the counter is not carried round the loop", true
+			}
+		} else if k, isK := ir.ConstInt(stripConv(e)); !isK || k != 0 {
+			return false, "the counter does not start at 0", true
+		}
+	}
+	return true, "", true
 }
